@@ -23,3 +23,50 @@ pub fn vx_split_nl<'a>(buf: &'a [u8]) -> (r: Vec<&'a [u8]>)
     ensures r@.len() >= 1, crate::pe::lens(r@, r@.len() as int) + (r@.len() - 1) == buf@.len(),
 { buf.split(|&c| c == b'\n').collect() }
 }
+
+// ---- task unit (C09): /showIncludes extraction -----------------------------------------------------------
+pub mod si {
+    use vstd::prelude::*;
+    verus! {
+    /// the pieces of b between newlines (what slice::split(|c| c == b'\n') yields)
+    pub open spec fn lines_of(b: Seq<u8>) -> Seq<Seq<u8>> decreases b.len() {
+        if !b.contains(10u8) { seq![b] } else {
+            let i = b.index_of(10u8);
+            if 0 <= i < b.len() { seq![b.take(i)] + lines_of(b.skip(i + 1)) } else { seq![b] }
+        }
+    }
+    pub open spec fn prefix() -> Seq<u8> { crate::vx_utf8("Note: including file: "@) }
+    /// a line of the form `Note: including file: <path>`
+    pub open spec fn is_note(l: Seq<u8>) -> bool { l.len() >= prefix().len() && l.take(prefix().len() as int) == prefix() }
+    /// what is shown to the user: the other lines, in order, joined by newlines (the code's rule: a newline goes in
+    /// front of a line only if something was shown before)
+    pub open spec fn shown(ls: Seq<Seq<u8>>, k: int) -> Seq<u8> decreases k {
+        if k <= 0 { Seq::<u8>::empty() } else {
+            let p = shown(ls, k - 1);
+            if is_note(ls[k - 1]) { p } else { (if p.len() > 0 { p.push(10u8) } else { p }) + ls[k - 1] }
+        }
+    }
+    /// number of note lines among the first k
+    pub open spec fn notes(ls: Seq<Seq<u8>>, k: int) -> int decreases k {
+        if k <= 0 { 0 } else { notes(ls, k - 1) + (if is_note(ls[k - 1]) { 1int } else { 0int }) }
+    }
+    }
+}
+verus! {
+/// R9 wrappers (trusted: std documentation of slice::split / strip_prefix / ends_with / to_vec)
+#[verifier::external_body]
+pub fn vx_split_lines<'a>(buf: &'a [u8]) -> (r: Vec<&'a [u8]>)
+    ensures r@.len() == crate::si::lines_of(buf@).len(), forall|i: int| 0 <= i < r@.len() ==> (#[trigger] r@[i])@ == crate::si::lines_of(buf@)[i],
+{ buf.split(|&c| c == b'\n').collect() }
+#[verifier::external_body]
+pub fn vx_strip_prefix<'a>(l: &'a [u8], p: &[u8]) -> (r: Option<&'a [u8]>)
+    ensures (match r { Some(rest) => l@.len() >= p@.len() && l@.take(p@.len() as int) == p@ && rest@ == l@.skip(p@.len() as int),
+                       None => !(l@.len() >= p@.len() && l@.take(p@.len() as int) == p@) })
+{ l.strip_prefix(p) }
+#[verifier::external_body]
+pub fn vx_ends_with_byte(l: &[u8], b: u8) -> (r: bool)
+    ensures r == (l@.len() > 0 && l@.last() == b)
+{ l.ends_with(&[b]) }
+#[verifier::external_body]
+pub fn vx_to_vec(l: &[u8]) -> (r: Vec<u8>) ensures r@ == l@ { l.to_vec() }
+}
